@@ -586,6 +586,14 @@ def _collect(eng, m, args, fr, dty):
                 return r
             out.append(r.fields[0])
         return Some(Vec(out))
+    if target.startswith(('HashSet<', 'std::collections::HashSet<', 'BTreeSet<')):
+        from .models_hash import MapV
+        mp = MapV(is_set=True)
+        for x in vals:
+            mp.entries.append((eng.deref(x, fr), Cell(UNIT)))
+        return mp
+    if target.startswith(('Vec<()>',)):
+        return Vec(vals)
     hook = eng.env.get('collect')
     if hook is not None:
         return hook(eng, target, vals, fr)
